@@ -16,13 +16,13 @@ import json
 import os
 
 import vlib
-from checks.c12 import (PRECEDENCE, Tally, attributed_sigs, run_counterfactuals, model_search, impl_search, bag, case_queries, case_sql, corpus_lines, field, finish_reports,
+from checks.c12 import (PRECEDENCE, Tally, run_translators, attributed_sigs, run_counterfactuals, model_search, impl_search, bag, case_queries, case_sql, corpus_lines, field, finish_reports,
                         judge_scan, model_rows, out_rows, parse_sexp, run_cases, vkey)
 
 THEOREMS = [
-    "range_analysis_sound", "range_analysis_type_unsound", "batches_range_scan_exact", "early_stop_sound",
+    "range_analysis_sound", "range_analysis_type_unsound", "range_stop_sound", "batches_range_scan_exact", "early_stop_sound",
     "dv_and_range_commute", "start_row_sound", "rowset_range_scan_exact", "guard_implies_precondition",
-    "guarded_range_scan_exact", "range_scan_precondition_key_first", "range_scan_precondition_key_col0",
+    "guarded_range_scan_exact", "reachable_range_scan_exact", "range_scan_precondition_key_first", "range_scan_precondition_key_col0",
     "range_scan_precondition_key_type", "range_guard_regression", "range_scan_dup_boundary_regression",
     "scan_filter_residual", "scan_filter_false_regression",
 ]
@@ -258,6 +258,7 @@ def judge_query13(r, T, qid, g, nrs):
 
 def run(ck):
     n = 380 if ck.quick() else 4000
+    run_translators(ck)
     bad = vlib.step_lean(ck, "RlModel.Thm.C13", THEOREMS, extra_targets=["drv_c13"])
     ok, log = vlib.step_cargo(ck, ["c13"])
     if not ok:
